@@ -913,7 +913,7 @@ impl<'a> Gen<'a> {
     /// Statements that build cyclic / aliased / shared structure and garbage (for C03/C04).
     fn gc_stmt(&mut self) -> Vec<J> {
         let ls = self.vars_of(|t| *t == Ty::ListInt);
-        match self.rng.below(9) {
+        match self.rng.below(11) {
             0 => {
                 // a list containing itself, and an alias of it
                 let n = self.fresh("cy");
@@ -922,6 +922,20 @@ impl<'a> Gen<'a> {
                      json!({"k": "expr", "e": mcall(var(&n), "append", vec![var(&n)])}),
                      assign(&a, var(&n)),
                      emit(var(&a))]
+            }
+            9 | 10 => {
+                // a cycle that passes through a tuple and is reachable only through the tuple
+                let t = self.fresh("tc");
+                let via_dict = self.rng.chance(1, 3);
+                if via_dict {
+                    vec![assign(&t, json!({"k": "tuple", "items": [{"k": "dict", "keys": [strlit("k")], "vals": [int(1)]}, int(self.small_int())]})),
+                         json!({"k": "assign", "tg": {"k": "index", "e": {"k": "index", "e": var(&t), "i": int(0)}, "i": strlit("me")}, "e": var(&t)}),
+                         emit(callf("len", vec![var(&t)]))]
+                } else {
+                    vec![assign(&t, json!({"k": "tuple", "items": [{"k": "list", "items": [int(1), int(2)]}]})),
+                         json!({"k": "expr", "e": mcall(json!({"k": "index", "e": var(&t), "i": int(0)}), "append", vec![var(&t)])}),
+                         emit(var(&t))]
+                }
             }
             1 => {
                 // dict of lists sharing one list twice
